@@ -48,6 +48,7 @@ type bsess struct {
 	rxCount   int
 	nConnect, nSuback int
 	nextID    uint16
+	nAns      int
 }
 
 func newBroker(s *Sim) *broker {
@@ -122,7 +123,17 @@ func (bs *bsess) logPkt(dir string, p refmqtt.Pkt) {
 }
 
 // send schedules delivery of p to the gateway (FIFO stream).
-func (bs *bsess) send(p refmqtt.Pkt) { bs.sendRaw(p.Encode(), p.String(), int64(p.Type)) }
+func (bs *bsess) send(p refmqtt.Pkt) {
+	if d := bs.b.plan.AnswerDelayMs; d > 0 && p.Type != refmqtt.PUBLISH {
+		// a slow broker writes its answers late; what it writes meanwhile (publishes) goes out first
+		bs.nAns++
+		bs.b.s.W.After(time.Duration(d)*time.Millisecond, fmt.Sprintf("mqans:%s:%06d", bs.name, bs.nAns), func() {
+			bs.sendRaw(p.Encode(), p.String(), int64(p.Type))
+		})
+		return
+	}
+	bs.sendRaw(p.Encode(), p.String(), int64(p.Type))
+}
 
 func (bs *bsess) sendRaw(raw []byte, desc string, typ int64) {
 	if bs.closedByBroker || bs.closedByGw {
@@ -136,7 +147,6 @@ func (bs *bsess) sendRaw(raw []byte, desc string, typ int64) {
 	pf := &s.Plan.Cfg.MQ
 	span := pf.MaxLatUs - pf.MinLatUs
 	d := time.Duration(pf.MinLatUs)*time.Microsecond + time.Duration(w.Keyed("mqlat-b", bs.name, i)*float64(span)*1000)
-	d += time.Duration(bs.b.plan.AnswerDelayMs) * time.Millisecond
 	at := w.Now() + d
 	if at < bs.stallUntil {
 		at = bs.stallUntil
